@@ -26,6 +26,17 @@ class BodyError(Exception):
     pass
 
 
+class FalsyError(Exception):
+    """An exception instance that is falsy (an aggregated-errors exception that happens to be empty, a result-like
+    error object): still an exception."""
+
+    def __bool__(self):
+        return False
+
+    def __len__(self):
+        return 0
+
+
 def new_content(scn):
     out = []
     for i, n in enumerate(scn['writes']):
@@ -239,7 +250,7 @@ def saver_kwargs(scn):
 
 
 BODY_EXC = {'body-error': BodyError, 'KeyboardInterrupt': KeyboardInterrupt, 'SystemExit': SystemExit,
-            'GeneratorExit': GeneratorExit}
+            'GeneratorExit': GeneratorExit, 'falsy-exception': FalsyError}
 
 
 def install(fu, ip):
@@ -263,6 +274,17 @@ def do_save(fu, scn, dest):
     chunks = new_content(scn)
     BodyError = BODY_EXC[scn.get('raise_kind', 'body-error')]   # noqa: F811
     saver = fu.atomic_save(dest, **saver_kwargs(scn))
+    if scn.get('between'):
+        # the saver object exists; the world changes before it is entered
+        if scn['between'] == 'chmod-dest' and os.path.exists(dest):
+            os.chmod(dest, scn.get('between_mode', 0o600))
+        elif scn['between'] == 'create-dest' and not os.path.lexists(dest):
+            fd = os.open(dest, os.O_WRONLY | os.O_CREAT | os.O_EXCL, 0o777)
+            os.write(fd, OLD)
+            os.close(fd)
+            os.chmod(dest, scn.get('between_mode', 0o600))
+        elif scn['between'] == 'delete-dest' and os.path.lexists(dest):
+            os.unlink(dest)
     if scn.get('reuse') == 'after-failure':
         # one saver object used again after a failed attempt (a retry loop around `with saver:`)
         try:
